@@ -11,7 +11,9 @@ from .names import deref
 
 
 class NoResult(Exception):
-    pass
+    def __init__(self, reason='no-result'):
+        Exception.__init__(self, reason)
+        self.reason = reason
 
 
 PROMOTE = {('int', 'long'), ('int', 'float'), ('int', 'double'), ('long', 'float'), ('long', 'double'),
@@ -37,6 +39,10 @@ def names_match(w, r):
 
 def lg(n):
     return n.get('logical', {}).get('t')
+
+
+def kname(n):
+    return lg(n) or n['k']
 
 
 def matches(w, wenv, r, renv, depth=0):
@@ -133,7 +139,7 @@ def to_reader_prim(v, w, r):
             try:
                 return {'s': bytes.fromhex(raw_bytes(v)).decode('utf-8')}
             except UnicodeDecodeError:
-                raise NoResult()
+                raise NoResult('bytes-not-utf8')
     if rk == 'null':
         return None
     if rk == 'boolean':
@@ -226,7 +232,7 @@ def resolve(w, wenv, r, renv, v, depth=0):
     if rk == 'union':
         cands = [i for i, b in enumerate(r['branches']) if deref(b, renv)['k'] != 'union' and matches(w, wenv, b, renv)]
         if not cands:
-            raise NoResult()
+            raise NoResult('no-reader-union-branch-matches:%s' % kname(w))
         picks = [cands[0]]
         ex = [i for i in cands if exact(w, wenv, r['branches'][i], renv)]
         if ex and ex[0] not in picks:
@@ -242,7 +248,9 @@ def resolve(w, wenv, r, renv, v, depth=0):
             raise err or NoResult()
         return out
     if not matches(w, wenv, r, renv):
-        raise NoResult()
+        if wk == rk and wk in ('record', 'enum', 'fixed'):
+            raise NoResult('named-types-do-not-match:%s' % wk)
+        raise NoResult('no-promotion:%s->%s' % (kname(w), kname(r)))
     if lg(w) in ('decimal', 'big-decimal', 'uuid', 'duration') or lg(r) in ('decimal', 'big-decimal', 'uuid', 'duration'):
         if lg(w) == lg(r) and w.get('logical') == r.get('logical') and wk == rk:
             return [v]
@@ -265,7 +273,7 @@ def resolve(w, wenv, r, renv, v, depth=0):
             elif rf['has_default']:
                 alts = [default_value(rf['default'], rf['type'], renv)]
             else:
-                raise NoResult()
+                raise NoResult('reader-field-without-default')
             out = [o + [[rf['name'], a]] for o in out for a in alts][:4]
         return [{'r': o} for o in out]
     if wk == 'enum':
@@ -275,7 +283,7 @@ def resolve(w, wenv, r, renv, v, depth=0):
         if r.get('default') is not None:
             d = r['default']
             return [{'e': [r['symbols'].index(d), d]}]
-        raise NoResult()
+        raise NoResult('enum-symbol-unknown-to-reader-without-default')
     if wk == 'fixed':
         return [{'F': v['F'], 'n': r['size']}]
     if wk == 'array':
